@@ -5,7 +5,7 @@
 From Coq Require Import List NArith Bool.
 From Coq Require String.
 Import String.StringSyntax.
-From Sccache Require Import Base.Sx Model.Lru.
+From Sccache Require Import Base.Sx Model.Lru Model.LruPut.
 Import ListNotations.
 Local Open Scope N_scope.
 Local Open Scope string_scope.
@@ -83,5 +83,55 @@ Definition run_c07 (x : sx) : sx :=
   | _ => err "bad case"
   end.
 
+(* ---- leg "put": DiskCache::put / get over the Lru model, with a write-fault oracle.
+   case = ( cap ( (put key n fault) | (get key) ... ) )    fault: 0 = none, m+1 = the write fails after m bytes
+   obs  = ( res size ( (path size) ... ) nhandles )        one per op *)
+Definition kpath (k : key) : key :=
+  match k with a :: b :: _ => [a; 47; b; 47] ++ k | _ => k end.
+
+Definition dec_fault (x : sx) : option N := if N.eqb (get_N x) 0 then None else Some (get_N x - 1).
+
+Definition dec_dop (x : sx) : option dop :=
+  match x with
+  | SL [t; a] => if is_sym "get" t then Some (DGet (kpath (get_B a))) else None
+  | SL [t; a; b; c] =>
+      if is_sym "put" t then Some (DPut (kpath (get_B a)) (get_N b) (dec_fault c)) else None
+  | _ => None
+  end.
+
+Fixpoint dec_dops (l : list sx) : option (list dop) :=
+  match l with
+  | [] => Some []
+  | x :: r => match dec_dop x, dec_dops r with
+              | Some o, Some os => Some (o :: os)
+              | _, _ => None
+              end
+  end.
+
+Definition enc_dobs (x : dout * st) : sx :=
+  let '(o, s) := x in
+  let r := match o with
+           | DP POk => sym "ok"
+           | DP PWriteErr => sym "write_err"
+           | DP (PRefused r) => enc_res r
+           | DP (PCommitErr r) => enc_res r
+           | DG r => match r with ROk => sym "hit" | RNotInCache => sym "miss" | _ => enc_res r end
+           end in
+  SL [ r; SN (size s);
+       SL (map (fun e => SL [SB (fst e); SN (snd e)]) (index s));
+       snat (List.length (handles s)) ].
+
+Definition run_put (x : sx) : sx :=
+  match x with
+  | SL (c :: SL ops :: _) =>
+      match dec_dops ops with
+      | Some os => SL (map enc_dobs (dtrace (initial (get_N c) []) os))
+      | None => err "bad op"
+      end
+  | _ => err "bad case"
+  end.
+
 Definition dispatch (leg : list N) (x : sx) : sx :=
-  if bytes_eqb leg (bs "lru") then run_c07 x else err "unknown leg".
+  if bytes_eqb leg (bs "lru") then run_c07 x
+  else if bytes_eqb leg (bs "put") then run_put x
+  else err "unknown leg".
